@@ -230,3 +230,163 @@ def c16_main():
                         "--parallel auto only selects the parallel source for inputs >= 200 MB: the parallel path is reached with -p yes",
                         "which internal path ran is derived from the configuration (Cli!PathClass), not observed"]
     return run.finish()
+
+
+# ---------------------------------------------------------------------------------------------
+# C17: bigwigaverageoverbed / bigwigvaluesoverbed
+# ---------------------------------------------------------------------------------------------
+def milli(txt):
+    """'12.500' -> (12500, 0); 'NaN' -> (0, 1)"""
+    t = txt.strip()
+    if t.lower() in ("nan", "-nan"):
+        return 0, 1
+    if t.lower() in ("inf", "-inf"):
+        return 0, 2
+    neg = t.startswith("-")
+    t = t.lstrip("+-")
+    if "e" in t.lower():
+        v = round(float(t) * 1000)
+        return (-v if neg else v), 0
+    ip, _, fp = t.partition(".")
+    fp = (fp + "000")[:3]
+    v = int(ip or "0") * 1000 + int(fp)
+    return (-v if neg else v), 0
+
+
+def make_bigwig(tdir, d, tag, items, size=None):
+    """bigWig with integer values written by the real CLI (plumbing for C17 / C15)"""
+    nch = max([it[0] for it in items] + [1])
+    size = size or (max([it[2] for it in items] + [1]) + 20)
+    sizes = os.path.join(d, "s_%s.sizes" % tag)
+    with open(sizes, "w") as f:
+        for c in range(1, nch + 1):
+            f.write("%s\t%d\n" % (chrom_name(c), size))
+    bg = os.path.join(d, "i_%s.bedGraph" % tag)
+    with open(bg, "w") as f:
+        for it in items:
+            f.write("%s\t%d\t%d\t%d\n" % (chrom_name(it[0]), it[1], it[2], it[3]))
+    bw = os.path.join(d, "b_%s.bw" % tag)
+    rc, _, err = run_tool(tdir, "own", "bedgraphtobigwig", [bg, sizes, bw, "-t", "1"])
+    if rc != 0:
+        raise ToolError("cannot prepare bigWig for the CLI checks: " + err[-300:])
+    return bw, sizes
+
+
+def c17_case(tdir, d, k, b):
+    tag = "c17_%d" % k
+    bw, _ = make_bigwig(tdir, d, tag, b["items"])
+    bed = os.path.join(d, "r_%s.bed" % tag)
+    with open(bed, "w") as f:
+        for i, r in enumerate(b["regions"], 1):
+            f.write("%s\t%d\t%d\tr%d\tx%d\n" % (chrom_name(r[0]), r[1], r[2], i, i))
+    out = os.path.join(d, "o_%s.txt" % tag)
+    args = [bw, bed, out, "-t", str(b["threads"])]
+    nm = b["name"]
+    if nm == "col4":
+        args += ["-n", "4"]
+    elif nm == "col5":
+        args += ["--namecol", "5"]
+    elif nm in ("interval", "none"):
+        args += ["-n", nm]
+    if b["minmax"]:
+        args.append("--min-max")
+    rc, _, err = run_tool(tdir, "own", "bigwigaverageoverbed", args)
+    raw = open(out, "rb").read() if os.path.exists(out) else b""
+    rows, parsed = [], 1
+    try:
+        for line in raw.decode().splitlines():
+            p = line.split("\t")
+            if nm == "none":
+                name = int(p[3][1:]) if p[3].startswith("r") else 0
+                ok = p[0] == chrom_name(b["regions"][name - 1][0]) and int(p[1]) == b["regions"][name - 1][1] and int(p[2]) == b["regions"][name - 1][2] and p[4] == "x%d" % name if name else False
+                name = name if ok else 0
+                p = p[5:]
+            elif nm == "interval":
+                ch, _, se = p[0].partition(":")
+                s_, _, e_ = se.partition("-")
+                idx = len(rows) + 1
+                r = b["regions"][idx - 1] if idx <= len(b["regions"]) else None
+                name = idx if r and ch == chrom_name(r[0]) and int(s_) == r[1] and int(e_) == r[2] else 0
+                p = p[1:]
+            else:
+                pre = "x" if nm == "col5" else "r"
+                name = int(p[0][1:]) if p[0].startswith(pre) else 0
+                p = p[1:]
+            row = {"name": name, "size": int(p[0]), "bases": int(p[1])}
+            row["sum_m"], _ = milli(p[2])
+            row["mean0_m"], row["mean0_nan"] = milli(p[3])
+            row["mean_m"], row["mean_nan"] = milli(p[4])
+            if b["minmax"]:
+                row["min_m"], row["min_nan"] = milli(p[5])
+                row["max_m"], row["max_nan"] = milli(p[6])
+            else:
+                row["min_m"], row["min_nan"], row["max_m"], row["max_nan"] = 0, 0, 0, 0
+            rows.append(row)
+    except Exception:
+        parsed = 0
+    # the same request single-threaded: the bytes must be identical
+    out1 = out + ".t1"
+    args1 = [bw, bed, out1] + args[3:]
+    args1[args1.index("-t") + 1] = "1"
+    rc1, _, _ = run_tool(tdir, "own", "bigwigaverageoverbed", args1)
+    raw1 = open(out1, "rb").read() if os.path.exists(out1) else b"?"
+    # values over bed
+    outv = out + ".v"
+    rcv, _, errv = run_tool(tdir, "own", "bigwigvaluesoverbed", [bw, bed, outv])
+    vrows, vparsed = [], 1
+    try:
+        for line in open(outv).read().splitlines():
+            vrows.append([milli(x)[0] for x in line.split("\t")] if line else [])
+    except Exception:
+        vparsed = 0
+    for p in (bw, bed, out, out1, outv):
+        try:
+            os.remove(p)
+        except OSError:
+            pass
+    base = {k2: b[k2] for k2 in ("ds", "items", "regions", "name", "minmax", "threads")}
+    return [dict(base, tool="average", obs={"rc": rc, "parsed": parsed, "rows": rows, "same_as_t1": 1 if (rc1 == 0 and raw == raw1) else 0, "err": err[-200:]}),
+            dict(base, tool="values", obs={"rc": rcv, "parsed": vparsed, "vrows": vrows, "err": errv[-200:]})]
+
+
+def c17_main():
+    run = Run("C17")
+    r = tlc("MC_Stats", "MC_Stats.cfg", os.path.join(run.wd, "mc"), workers=4, timeout=1200)
+    tlc_must_pass(r, "MC_Stats")
+    run.add_tlc("stats_configurations", r)
+    beh = r.replays
+    if len(beh) < 100:
+        raise ToolError("vacuity: %d configurations" % len(beh))
+    if not run.thorough:
+        beh = beh[run.seed % 2::2]
+    tdir = tools_dir()
+    d = os.path.join(run.wd, "files")
+    os.makedirs(d, exist_ok=True)
+    res = run_parallel(lambda kb: c17_case(tdir, d, kb[0], kb[1]), list(enumerate(beh)))
+    obs = [o for pair in res for o in pair]
+    # library level: stats_for_bed_item / bigwig_average_over_bed through the harness
+    lib = run_harness("stats", [{"items": b["items"], "regions": b["regions"], "minmax": 1, "name": b["name"], "ds": b["ds"], "threads": 0} for b in beh[::5]], run.wd)
+    for o in lib:
+        o.pop("case", None)
+        o["tool"] = "average"
+        obs.append(o)
+    lines = []
+    for o in obs:
+        lines.append(json.dumps(o, separators=(",", ":")))
+        run.count_case(json.dumps({k: o[k] for k in o if k not in ("obs", "items")}, sort_keys=True), len(o["regions"]) > 1)
+    bad = validate_obs("Obs_Stats", "Obs.cfg", lines, run.wd, "obs", shards=4)
+    run.cov["traces_validated_against_impl"] += len(obs)
+    tags = {}
+    for i, tag in bad:
+        tags[tag] = tags.get(tag, 0) + 1
+        o = obs[i]
+        run.violation("C17 %s: tool=%s ds=%s name=%s minmax=%s -t %s regions=%s -> %s" % (tag, o["tool"], o["ds"], o["name"], o["minmax"], o["threads"], json.dumps(o["regions"])[:120], json.dumps(o["obs"])[:300]),
+                      {"kind": "cli17", "tag": tag, "case": {k: o[k] for k in o if k != "obs"}, "obs": o["obs"]})
+    if tags:
+        log("[C17] failing observations by tag: %s" % tags)
+    run.cov["rule"] = ("the full product data set x region-list length {1,3,40} x name mode {col 4, col 5, interval, none, default} x --min-max x -t {1,2,3,8,16} from MC_Stats; regions inside, "
+                       "straddling, between and outside data; bigwigaverageoverbed (also compared byte for byte with -t 1), bigwigvaluesoverbed, and the library functions; "
+                       "non-trivial = more than one region")
+    run.sample(obs[0])
+    run.assumptions += ["integer-valued data; quotients are checked against the 3-decimal text by cross multiplication", "regions on chromosomes absent from the bigWig are out of scope"]
+    return run.finish()
